@@ -35,6 +35,8 @@ M = [
  ('fails: link written to the parent', 'src/nfa_builder.rs', 'self.states[usize::from_u32(child_id)].borrow_mut().fail = new_fail_id;', 'self.states[state_id].borrow_mut().fail = new_fail_id;', 1, ['pass_bw']),
  ('fails: queue index not advanced', 'src/nfa_builder.rs', 'qi += 1;', 'qi += 0;', 1, ['pass_bw']),
  ('leftmost: output state not marked dead', 'src/nfa_builder.rs', 's.fail = DEAD_STATE_ID;', 's.fail = ROOT_STATE_ID;', 1, ['pass_bw']),
+ ('leftmost: root reached means dead', 'src/nfa_builder.rs', 'break ROOT_STATE_ID;', 'break DEAD_STATE_ID;', 2, ['pass_bw']),
+ ('leftmost: chase ignores dead links', 'src/nfa_builder.rs', 'if next_fail_id == DEAD_STATE_ID {', 'if false {', 1, ['pass_bw']),
  ('leftmost: dead not propagated', 'src/nfa_builder.rs', 'let new_fail_id = if fail_id == DEAD_STATE_ID {', 'let new_fail_id = if false {', 1, ['pass_bw']),
  ('outputs: position off by one', 'src/nfa_builder.rs', 'u32::try_from(self.outputs.len() + 1).unwrap()', 'u32::try_from(self.outputs.len() + 2).unwrap()', 1, ['pass_bw']),
  ('outputs: parent is own position', 'src/nfa_builder.rs', 'let parent = self.states[usize::from_u32(s.fail)].borrow().output_pos;', 'let parent = s.output_pos;', 1, ['pass_bw']),
